@@ -289,7 +289,31 @@ class LemmaChain:
                     self.fact(d.eq(d.mul(e, e0), 1))  # exp(-x) exp(x) = 1
                     done = True
                     break
+            if not done:
+                # additive relations with two representatives: exp(x + y) = exp(x) exp(y)
+                for i1, e1 in enumerate(reps):
+                    for e2 in reps[i1 + 1:]:
+                        a1, a2 = d.args[e1][1], d.args[e2][1]
+                        va, v1, v2 = d.vals[a], d.vals[a1], d.vals[a2]
+                        if self.close(va, v1 + v2) and self.prove(f'exp arguments add #{e}=#{e1}+#{e2}', d.eq(a, d.add(a1, a2))):
+                            self.fact(d.eq(e, d.mul(e1, e2)))
+                            done = True
+                        elif self.close(va, -(v1 + v2)) and self.prove(f'exp arguments add #{e}=-#{e1}-#{e2}', d.eq(d.neg(a), d.add(a1, a2))):
+                            self.fact(d.eq(d.mul(e, d.mul(e1, e2)), 1))
+                            done = True
+                        elif self.close(va, v1 - v2) and self.prove(f'exp arguments add #{e}=#{e1}-#{e2}', d.eq(a, d.sub(a1, a2))):
+                            self.fact(d.eq(d.mul(e, e2), e1))
+                            done = True
+                        elif self.close(va, v2 - v1) and self.prove(f'exp arguments add #{e}=#{e2}-#{e1}', d.eq(a, d.sub(a2, a1))):
+                            self.fact(d.eq(d.mul(e, e1), e2))
+                            done = True
+                        if done:
+                            break
+                    if done:
+                        break
             if done:
+                if d.lt(0, e) not in self.facts:
+                    self.fact(d.lt(0, e))
                 continue
             reps.append(e)
             self.fact(d.lt(0, e))  # exp > 0
@@ -327,6 +351,10 @@ class LemmaChain:
         consts = [Fraction(1), Fraction(4), Fraction(2), Fraction(1, 4), Fraction(1, 2)]
         log4 = d.log(d.const(4))
         unpaired = []
+        for L in only_i + only_o:
+            g = d.args[L][1]
+            if self.close(d.vals[g], 1.0) and self.prove(f'log argument #{g} is one', d.eq(g, 1)):
+                self.fact(d.eq(L, 0))  # log 1 = 0
         for L1 in only_i:
             g1 = d.args[L1][1]
             v1 = d.vals[g1]
@@ -350,15 +378,11 @@ class LemmaChain:
                             if self.prove(f'log arguments: #{L2} = {1 / c} * #{L1}', d.eq(g2, d.mul(ci, g1))) and self.positive(g1):
                                 self.fact(d.eq(L2, d.add(d.log(ci), L1)))
                                 found = True
-                    elif self.close(v1 * v2, float(c)) and c >= 1:  # g1 g2 = c
+                    if self.close(v1 * v2, float(c)) and c >= 1:  # g1 g2 = c
                         if self.prove(f'log arguments: #{L1} * #{L2} = {c}', d.eq(d.mul(g1, g2), cn)) \
                                 and self.positive(g1) and self.positive(g2):
                             self.fact(d.eq(d.add(L1, L2), d.log(cn) if c != 1 else 0))  # log x + log y = log(xy)
                             found = True
-                    if found:
-                        break
-                if found:
-                    break
             if not found:
                 unpaired.append(L1)
         # three-way relations (an event in an older epoch, the boundary term, the oracle's q): g1 gb g2 = 16
@@ -410,6 +434,7 @@ SIG_TIE = 'PiecewiseConstantBirthDeath.log_prob:serial-tip-exactly-on-epoch-boun
 SIG_RM = 'PiecewiseConstantBirthDeath.log_prob:removal_probability-with-several-epochs:raises'
 SIG_BD0 = 'BirthDeath.log_prob:differs-from-constant-rate-oracle:tips-at-time-0'
 SIG_BD = 'BirthDeath.log_prob:differs-from-constant-rate-oracle'
+SIG_NAN = 'PiecewiseConstantBirthDeath.log_prob:nan:minus-inf-times-zero-for-a-masked-rho-tip'
 
 
 def cfg_label(c):
@@ -447,6 +472,8 @@ def initial_witness(c):
     if sp.get('tip0') == 'all':
         for i in range(n):
             W[f's{i}'] = 0.0
+    if sp.get('corner'):
+        W['rho'], W['r'] = 1.0, 0.0
     return {k: W[k] for k in var_names(c)}
 
 
@@ -468,6 +495,10 @@ def domain_for(c):
               d.or_(d.lt(0, psi), d.not_(d.eq(lam, mu)))]
         if c['removal']:
             cs += [d.le(0, V['r']), d.le(V['r'], 1)]
+            if (c.get('split') or {}).get('corner'):
+                cs += [d.eq(rho, 1), d.eq(V['r'], 0)]  # complete sampling at present, no removal
+            else:
+                cs.append(d.or_(d.lt(rho, 1), d.lt(0, V['r'])))
         for i in range(n):
             s = V[f's{i}']
             cs.append(d.le(0, s))
@@ -630,6 +661,15 @@ def make_body(c, tr, verbose=False):
             return [Goal(f'{what} (result has shape {tuple(impl.shape)})', d.FALSE, signature=sig)]
         I = int(impl._ids.reshape(-1)[0])
         O = SymFloat._id(orc)
+        if math.isnan(d.vals[I]) or math.isinf(d.vals[I]):
+            # the real code is not finite at this witness: which log argument vanishes, and does it on the whole region?
+            chain = LemmaChain(t, dom(d, V) + list(t.pcs), tr, cfg_label(c), timeout=20.0, verbose=verbose)
+            chain.sqrt_phase([I])
+            chain.exp_phase([I])
+            chain.sign_phase(t.denominators)
+            zero = [x for kind, x in t.domains if kind == 'pos' and abs(d.vals[x]) < 1e-12 and chain.prove(f'log argument #{x} is zero', d.eq(x, 0))]
+            return [Goal(f'{what}: the real code returns {d.vals[I]} (log arguments proved identically zero on this region: '
+                         f'{[d.to_str(x, 3) for x in zero][:2]})', d.FALSE, signature=SIG_NAN)]
         chain = LemmaChain(t, dom(d, V) + list(t.pcs), tr, cfg_label(c), timeout=c.get('lemma_timeout', 20.0), verbose=verbose)
         g = chain.equal(I, O, sig, what)
         goals = [g]
